@@ -913,7 +913,9 @@ class Repartition(Op):
 
     @staticmethod
     def flags(ins, args, out):
-        return replace(ins[0][1], rowset="")
+        # with unknown divisions the new boundaries are positions in the row sequence: they move when the optimizer pushes a
+        # later filter below the repartition, so the partition layout is not defined by the query
+        return replace(ins[0][1], rowset="", layout=False)
 
 
 @register("partitions", kinds=("frame", "series"), weight=0.5, tags={"partitions"})
